@@ -34,7 +34,7 @@ theorem deb_listed_member_protected (H1 H2 : Bytes → Bytes) (es1 es2 : List En
 example : isGpgName [100, 97, 116, 97] = false := by decide
 
 /-- the full tamper-evidence statement for the archive layer (not proved): two archives that both pass `checkSig` for the same
-    signed text have the same table up to order and repetition — see the gaps below for why "up to" cannot be dropped -/
+    signed text have the same table up to order (repetition is excluded by `deb_duplicate_member_rejected`) -/
 def deb_hashed_injective_full : Prop :=
   ∀ (text : Bytes) (d d' : List (Bytes × Bytes)), checkSig text d = .ok () → checkSig text d' = .ok () →
     ∀ k, lookup k d = lookup k d'
@@ -56,18 +56,46 @@ def evilMember : Bytes :=
   [99, 111, 110, 116, 114, 111, 108, 46, 116, 97, 114, 32, 32, 32, 32, 32, 49, 32, 32, 32, 32, 32, 32, 32, 32, 32, 32, 32, 48, 32, 32, 32, 32, 32,
    48, 32, 32, 32, 32, 32, 49, 48, 48, 54, 52, 52, 32, 32, 51, 32, 32, 32, 32, 32, 32, 32, 32, 32, 96, 10, 120, 121, 122, 10]
 
+/-- **deb_duplicate_member_rejected** (fix for F40). An archive in which two digested members (names not starting with `_gpg`)
+    share a name is never accepted by `Verify`, whatever the signatures, the hashes and the PGP layer say: the map
+    name → digest that `checkSig` works on holds one entry per name, so a second member of a name would escape the comparison. -/
+theorem deb_duplicate_member_rejected (H1 H2 : Bytes → Bytes) (pgp : Bytes → Option Bytes) (f : Bytes)
+    (hd : distinctNames (entries f).1 = false) : ∀ rs, verify H1 H2 pgp f ≠ .ok rs := by
+  intro rs
+  unfold verify
+  simp only [hd]
+  generalize verifyFail (entries f).1 = vf
+  generalize (entries f).2 = st
+  cases vf
+  · cases st <;> simp
+  · simp
+
+/-- acceptance gives the hypothesis `distinctNames` of the sign-then-verify and tamper-evidence statements -/
+theorem deb_accept_implies_distinct (H1 H2 : Bytes → Bytes) (pgp : Bytes → Option Bytes) (f : Bytes)
+    (rs : List (Bytes × Res Unit)) (h : verify H1 H2 pgp f = .ok rs) : distinctNames (entries f).1 = true := by
+  cases hd : distinctNames (entries f).1 with
+  | true => rfl
+  | false => exact absurd h (deb_duplicate_member_rejected H1 H2 pgp f hd rs)
+
+/-- `Verify` as it was before the fix: no duplicate-name test -/
+def verifyOkPre (H1 H2 : Bytes → Bytes) (pgp : Bytes → Option Bytes) (f : Bytes) : Bool :=
+  let p := entries f
+  !verifyFail p.1 && p.2 == .eof &&
+    (rolesOf (sigsOf p.1)).all fun r => checkRole pgp (digestsOf H1 H2 p.1) (sigsOf p.1) r == .ok ()
+
 set_option maxRecDepth 1000000 in
-/-- **deb_shadow_member_accepted.** `Verify` keeps one digest per member *name* (a Go map, the last member wins) and checks the
-    signed lines against that map.  A member inserted *in front of* a signed member of the same name is therefore never
-    compared with anything: the archive still verifies.  (`dpkg-deb` unpacks the first `data.tar*` member it meets.) -/
-theorem deb_shadow_member_accepted :
+/-- the F40 witness: a member inserted *in front of* a signed member of the same name was accepted by the pre-fix walk
+    (the map kept the last digest per name) and is refused now -/
+example :
     verifyOk h1 h2 pgpId signedSample = true ∧
-    verifyOk h1 h2 pgpId (signedSample.take 72 ++ evilMember ++ signedSample.drop 72) = true ∧
+    verifyOkPre h1 h2 pgpId (signedSample.take 72 ++ evilMember ++ signedSample.drop 72) = true ∧
+    verifyOk h1 h2 pgpId (signedSample.take 72 ++ evilMember ++ signedSample.drop 72) = false ∧
+    distinctNames (entries (signedSample.take 72 ++ evilMember ++ signedSample.drop 72)).1 = false ∧
     (entries (signedSample.take 72 ++ evilMember ++ signedSample.drop 72)).1.length = (entries signedSample).1.length + 1 := by
   decide
 
 set_option maxRecDepth 1000000 in
-/-- the same member placed *behind* the signed one is detected (digest mismatch): only the last member of a name counts -/
+/-- the same member placed *behind* the signed one was always detected (digest mismatch, now the duplicate-name refusal) -/
 theorem deb_shadow_after_rejected :
     verifyOk h1 h2 pgpId (signedSample.take 136 ++ evilMember ++ signedSample.drop 136) = false := by
   decide
